@@ -550,6 +550,8 @@ def run(mod, tier, seed, nproc=None):
         print("KNOWN-FINDING: property=%s %s (%s; %d case(s) this run)" % (mod.ID, e["what"], kid, n))
 
     nontriv = len(total.nontrivial) + total.nontrivial_bulk
+    if not total.samples:  # a module that recorded no sample: show at least which jobs ran
+        total.samples = [to_jsonable(dict(job=j)) for j in jobs[:3]]
     cov = dict(
         evaluations=total.evals,
         distinct_nontrivial=nontriv,
